@@ -11,9 +11,13 @@ ORDERS = [(0, 4, 8, 12, 16, 20, 24, 28), (4, 0, 8, 12, 16, 20, 24, 28), (8, 4, 0
 
 
 def concretise(tokens, order):
-    """abstract tokens A / C -> A<id> / C<id>: the k-th A uses order[k], the k-th C completes the k-th arrival"""
-    out, na, nc = [], 0, 0
+    """abstract tokens A / C / V -> A<id> / C<id> / V<id>: the k-th A uses order[k], the k-th C completes (V: resolves) the k-th arrival"""
+    out, na, nc, nv = [], 0, 0, 0
     for t in tokens:
+        if t == 'V':
+            out.append('V%d' % order[nv])
+            nv += 1
+            continue
         if t == 'A':
             out.append('A%d' % order[na])
             na += 1
@@ -58,7 +62,7 @@ class P(Property):
     rule = ('goaway: the REAL server::Connection over SimQuic, every history of length <= 6 (quick) / <= 8 (thorough) over '
             '{Arrive next id, shutdown(0), shutdown(1), poll accept once, complete the oldest request, peer GOAWAY} x 4 arrival orders '
             '(in and out of stream-ID order), plus seeded random histories of length 8..40 with n in {0,1,2,3,2^62,usize::MAX}, '
-            'ids up to 2^62-8, repeated shutdowns; plus every history of length <= 5 (thorough 6) over {Arrive, shutdown(0/1), poll, write budget := 0, grant 2 / 9 bytes, peer GOAWAY} with the budget closed early (pending GOAWAY writes, the same future resumed), plus shutdown(n) after accept() reported an error; observed: GOAWAY frames parsed from the control stream bytes, streams returned by '
+            'ids up to 2^62-8, repeated shutdowns; plus every history of length <= 5 (thorough 6) over {Arrive, shutdown(0/1), poll, write budget := 0, grant 2 / 9 bytes, peer GOAWAY} with the budget closed early (pending GOAWAY writes, the same future resumed), plus shutdown(n) after accept() reported an error; plus V<id> = the application resolves a request it was shown (must obtain it; STOP_SENDING/RESET on a shown stream is reported); plus long histories with 13..200 requests held at once; the environment letter p runs the same history through poll_accept_request_stream + create_resolver; observed: GOAWAY frames parsed from the control stream bytes, streams returned by '
             'accept(), STOP_SENDING/RESET codes, accept answers; every implementation trace is judged by the extracted Coq line monitor. '
             'cgoaway: the REAL client driver + SendRequest, every sequence of length <= 5 over '
             '{GOAWAY(id) for id in 0,4,8 and non-request ids 2,3, drive, poll send_request (new call or the one parked for stream credit), '
@@ -97,6 +101,17 @@ class P(Property):
                     out.append('goaway ' + concretise(toks, ORDERS[0]))
                     if na >= 2 and L == 7:
                         out.append('goaway ' + concretise(toks, ORDERS[1]))
+        # the application resolves what it was shown (served = the request is obtained, the stream is not refused)
+        for L in range(2, 6):
+            for toks in itertools.product(['A', 'S0', 'S1', 'P', 'V', 'C'], repeat=L):
+                if 'V' not in toks or 'P' not in toks or 'A' not in toks:
+                    continue
+                out.append('goaway ' + concretise(toks, ORDERS[0]))
+        # long histories: k requests held at once, shutdown(5), one arrival inside the grace interval, one beyond
+        for k in ((13, 50, 100, 101, 130, 200) if tier == 'quick' else range(13, 201, 3)):
+            toks = ['A%d' % (4 * i) for i in range(k)] + ['P'] * k + ['S5', 'A%d' % (4 * k), 'A%d' % (4 * k + 20), 'P', 'P', 'V%d' % (4 * k)]
+            out.append('goaway ' + ','.join(toks))
+            out.append('goaway.g ' + ','.join(toks))
         # control-stream write budget: the GOAWAY write of shutdown() / of accept()'s None arm pends and the SAME future is
         # polled again after credit arrives (b: budget := 0, W<k>: k more bytes; a GOAWAY frame is 3..10 bytes)
         walpha = ['A', 'S0', 'S1', 'P', 'b', 'W2', 'W9', 'G0']
@@ -133,8 +148,10 @@ class P(Property):
                     toks.append('P')
                 elif r < 0.8:
                     toks.append('S%d' % rng.choice(ns))
-                elif r < 0.95 and arrived:
+                elif r < 0.93 and arrived:
                     toks.append('C%d' % rng.choice(arrived))
+                elif r < 0.95 and arrived:
+                    toks.append('V%d' % rng.choice(arrived))
                 elif r < 0.97:
                     toks.append('G%d' % rng.choice([0, 0, 1, 5]))
                 elif r < 0.985:
@@ -182,11 +199,13 @@ class P(Property):
         # environment variants of the same histories (the model does not depend on them): grease on (the default
         # configuration), only 3 uni streams granted (the grease stream cannot open), other peer uni streams first,
         # control stream type byte / SETTINGS chunked, control stream late
-        envs = ['.g', '.g3', '.3', '.u', '.q', '.t', '.l', '.gu3', '.gqt3', '.gul3', '.qtl']
-        step = 6 if tier == 'quick' else 3
+        envs = ['.g', '.g3', '.3', '.u', '.q', '.t', '.l', '.gu3', '.gqt3', '.gul3', '.qtl', '.p', '.p', '.gp', '.p3l']
+        step = 5 if tier == 'quick' else 3
         extra = []
         for i in range(0, len(out), step):
             fam, rest = out[i].split(' ', 1)
+            if '.' in fam:
+                continue
             extra.append(fam + rng.choice(envs) + ' ' + rest)
         return out + extra
 
